@@ -61,10 +61,58 @@ def smaller(t):
             yield ("l", w[0])
         elif w in ("ei", "eu"):
             yield ("l", "i")
+        elif len(w) >= 4 and w[2] == "x":       # matrix: drop the modifier, then a vector, then the scalar
+            if len(w) == 5:
+                yield ("l", w[:4])
+            yield ("l", w[0] + w[1])
+            yield ("l", w[0])
+        elif w.startswith("?"):
+            yield ("l", "f")
+
+
+def shrink_types(tys):
+    """structurally smaller variants of one entry of a `;`-separated type list"""
+    for i, ty in enumerate(tys):
+        try:
+            t, _ = parse(tokens(ty))
+        except Exception:
+            continue
+        for v in smaller(t):
+            yield tys[:i] + [show(v)] + tys[i + 1:]
+
+
+def shrink_prog(f):
+    head, tys, sites = f[1], f[2].split(";"), f[3].split(",")
+    target, mode, style = head.split(":")
+    # plain spelling, Vulkan, no pipeline
+    if style != "0":
+        yield "\t".join([f[0], ":".join([target, mode, "0"]), f[2], f[3]])
+    if mode != "np":
+        yield "\t".join([f[0], ":".join([target, "np", style]), f[2], f[3]])
+    if target != "vk":
+        yield "\t".join([f[0], ":".join(["vk", mode, style]), f[2], f[3]])
+    # fewer sites
+    if len(sites) > 1:
+        for i in range(len(sites)):
+            yield "\t".join([f[0], head, f[2], ",".join(sites[:i] + sites[i + 1:])])
+    # drop a type nobody uses (re-index the sites)
+    used = {int(x.split("@")[1]) for x in sites}
+    for k in range(len(tys)):
+        if k not in used and len(tys) > 1:
+            ns = []
+            for x in sites:
+                a, b = x.split("@")
+                ns.append("%s@%d" % (a, int(b) - (1 if int(b) > k else 0)))
+            yield "\t".join([f[0], head, ";".join(tys[:k] + tys[k + 1:]), ",".join(ns)])
+    for v in shrink_types(tys):
+        yield "\t".join([f[0], head, ";".join(v), f[3]])
 
 
 def shrink(req):
     f = req.split("\t")
+    if f[0] == "C19.prog" and len(f) == 4:
+        yield from shrink_prog(f)
+        return
     if len(f) != 3:
         return
     tys = f[2].split(";")
@@ -73,20 +121,15 @@ def shrink(req):
     if len(tys) > 1:
         for i in range(len(tys)):
             yield "\t".join(f[:2] + [";".join(tys[:i] + tys[i + 1:])])
-    for i, ty in enumerate(tys):
-        try:
-            t, _ = parse(tokens(ty))
-        except Exception:
-            continue
-        for v in smaller(t):
-            if v[0] == "s" and not v[1]:
-                continue
-            yield "\t".join(f[:2] + [";".join(tys[:i] + [show(v)] + tys[i + 1:])])
+    for v in shrink_types(tys):
+        yield "\t".join(f[:2] + [";".join(v)])
 
 
 def nontrivial(req, obs):
     # a struct with at least two members, or nesting / arrays
     f = req.split("\t")
+    if f[0] == "C19.prog":
+        return len(f) == 4 and f[2].count(" ") >= 1
     return len(f) == 3 and (f[2].count(" ") >= 1)
 
 
@@ -116,49 +159,210 @@ def search(ctx):
         for c in leaves[:6]:
             out.append("{%s %s}" % (s, c))
         out.append("{[2 %s]}" % s)
-    return ["C19.check\tsb\t" + t for t in out]
+    reqs = ["C19.check\tsb\t" + t for t in out]
+    # every kind of use site with a small differing structure, alone and after an agreeing one
+    G = ["sb", "rwsb", "sbc", "sbtd", "sbreg"]
+    F = ["bload", "bload2", "rwbload", "rwbload2", "rwbstore", "rwbstoret", "baload", "rwbaload", "rwbastore", "rwbastoret"]
+    W = ["m", "u", "t", "me", "p", "a"]
+    sites = G + [f + "." + w for f in F for w in W]
+    sites += [f + "." + w for f in ("bload", "rwbload", "baload", "rwbaload") for w in ("gi", "da", "ex")]
+    sites += ["bload2.ex", "rwbload2.ex"]
+    for tgt in ("vk:np:0", "msl:pipe:0", "dx:np:0"):
+        for s in sites:
+            for t in ("{f f2}", "{h h2 f}", "{{f2 f} f}"):
+                reqs.append("C19.prog\t%s\t%s\t%s@0" % (tgt, t, s))
+            reqs.append("C19.prog\t%s\t{f f};{f f2}\tsb@0,%s@1" % (tgt, s))
+            reqs.append("C19.prog\t%s\t{f f};{f f2}\tbload.m@0,%s@1" % (tgt, s))
+    for t in ("{b b}", "{f f2x2}", "{f3x3}", "{i2x2}", "{f @Texture2D}", "{h b2}"):
+        reqs.append("C19.prog\tvk:np:0\t%s\tsb@0" % t)
+    return reqs
+
+
+# ---------------------------------------------------------------- Lean Spec vs the Rust reference calculators
+SC = {"h": "Float16", "i": "Int32", "u": "UInt32", "f": "Float32", "d": "Float64", "b": "Bool"}
+
+
+def lean_xty(t):
+    """parse tree -> term of Spec.LayoutFull.XTy (None: outside XTy)"""
+    if t[0] == "s":
+        ms = [lean_xty(m) for m in t[1]]
+        if None in ms:
+            return None
+        return "(XS [" + ", ".join(ms) + "])"
+    if t[0] == "a":
+        e = lean_xty(t[2])
+        return None if e is None else "(.arr %s %d)" % (e, t[1])
+    w = t[1]
+    if w == "ei":
+        return "(.enum .Int32)"
+    if w == "eu":
+        return "(.enum .UInt32)"
+    if w[0] not in SC:
+        return None
+    if len(w) == 1:
+        return "(.scalar .%s)" % SC[w]
+    if len(w) == 2 and w[1].isdigit():
+        return "(.vec .%s %s)" % (SC[w[0]], w[1])
+    if len(w) in (4, 5) and w[2] == "x":
+        major = {"": ".none", "r": ".row", "c": ".column"}[w[4:]]
+        return "(.mat .%s %s %s %s)" % (SC[w[0]], w[1], w[3], major)
+    return None
+
+
+def ref_types():
+    leaves = []
+    for c in "hiufdb":
+        leaves.append(c)
+        for n in "1234":
+            leaves.append(c + n)
+    for c in "hfidb":
+        for r in "1234":
+            for k in "1234":
+                leaves.append(c + r + "x" + k + ("" if (int(r) + int(k)) % 3 else "r"))
+    leaves += ["ei", "eu", "{}"]
+    out = []
+    for x in leaves:
+        out += ["{%s}" % x, "{%s f}" % x, "{h %s}" % x, "{[3 %s] i}" % x, "{f {%s} d}" % x, "{[2 [2 %s]] h2}" % x]
+    small = ["h", "f", "d", "b", "h2", "h3", "f2", "f3", "f4", "d2", "b2", "b3", "f2x2", "h3x3", "f4x3", "ei", "{}"]
+    for a in small:
+        for b in small:
+            out.append("{%s %s}" % (a, b))
+            out.append("{{%s %s} %s}" % (a, b, a))
+            out.append("{[2 {%s %s}] {%s} %s}" % (b, a, a, b))
+    return out
+
+
+def cross_check_reference(ctx):
+    """the theorems speak about Spec/LayoutFull.lean, the oracle about the calculators in harness/src/c19.rs:
+    both are readings of the same two rule sets and must give the same numbers"""
+    import os
+    import sys
+    sys.path.insert(0, os.path.join(os.path.dirname(os.path.dirname(os.path.abspath(__file__))), "tools"))
+    import vlib as V
+    if not ctx.harness_ok:
+        return
+    tys = ref_types()
+    os.makedirs(os.path.join(V.BUILD, "tmp"), exist_ok=True)
+    reqf = os.path.join(V.BUILD, "tmp", "c19-ref-%d.txt" % os.getpid())
+    with open(reqf, "w") as f:
+        f.write("".join("C19.ref\t%s\n" % t for t in tys))
+    cases, _ = ctx.run_harness([ctx.spec["harness"], "--requests", reqf])
+    os.unlink(reqf)
+    rust = {req.split("\t")[1]: obs for req, obs, _ in cases if req.startswith("C19.ref\t")}
+    lines = ["import RsslVerif.Spec.LayoutFull", "open RsslVerif.Gen.LayoutTables RsslVerif.Spec.LayoutFull",
+             "def XS (l : List XTy) : XTy := .struct (XTys.ofList l)",
+             "def one (m : Mode) (t : XTy) : String :=",
+             "  toString (xsize m t) ++ \"/\" ++ toString (xalign m t) ++ \"/\" ++ \",\".intercalate ((xfieldsAt m t 0).map toString)",
+             "def both (t : XTy) : String := (if xwf t then \"wf \" else \"nwf \") ++ \"h=\" ++ one .hlsl t ++ \" m=\" ++ one .metal t"]
+    asked = []
+    for t in tys:
+        term = lean_xty(parse(tokens(t))[0])
+        if term is not None:
+            asked.append(t)
+            lines.append("#eval IO.println (both %s)" % term)
+    leanf = os.path.join(V.BUILD, "tmp", "c19-ref-%d.lean" % os.getpid())
+    with open(leanf, "w") as f:
+        f.write("\n".join(lines) + "\n")
+    with V.Lock("lean"):
+        rc, out = V.sh(["lake", "env", "lean", leanf], cwd=V.LEAN, timeout=1200)
+    os.unlink(leanf)
+    got = [l for l in out.splitlines() if l.startswith("wf ") or l.startswith("nwf ")]
+    bad = []
+    if rc != 0 or len(got) != len(asked):
+        bad.append("Spec/LayoutFull.lean could not be evaluated (%d answers for %d types): %s" % (len(got), len(asked), out[-200:]))
+    else:
+        for t, l in zip(asked, got):
+            flag, val = l.split(" ", 1)
+            r = rust.get(t)
+            if r is None:
+                bad.append("no answer of the harness for " + t)
+            elif "none" in r:
+                if flag == "wf":
+                    bad.append("%s: Lean Spec has a layout (%s), the Rust reference has none (%s)" % (t, val, r))
+            elif r != val:
+                bad.append("%s: Lean Spec %s, Rust reference %s" % (t, val, r))
+            elif flag == "nwf" and "{}" not in t:
+                bad.append("%s: Rust reference has a layout, xwf is false" % t)
+    ctx.extra["reference_cross_check"] = {"types": len(asked), "disagreements": len(bad)}
+    for b in bad[:5]:
+        ctx.broken.append("reference calculators disagree (Spec/LayoutFull.lean vs harness/src/c19.rs): " + b)
+
+
+def custom(ctx):
+    ctx.standard_run()
+    cross_check_reference(ctx)
 
 
 SPEC = {
     "id": "C19",
-    "gens": ["LayoutTables"],
+    "custom": custom,
+    "gens": ["LayoutTables", "LayoutSites"],
     "lean_modules": ["RsslVerif.Thm.C19"],
     "theorems": [T + n for n in [
         "tables_pinned", "checked_sites", "get_matches_spec", "check_sound_agree", "check_sound",
         "reported_sizes_true", "rejected_differs", "check_complete", "check_total", "vector_free_agree",
+        "agree_iff_same_size_and_offsets", "rejected_really_differs", "check_complete_fields",
+        "collection_sites_covered", "diagnostic_pinned", "property_uses_collected", "check_layout_sound",
+        "check_layout_reports_true_sizes", "buffer_arrays_not_validated",
+        "check_sound_full", "reported_sizes_true_full", "no_layout_no_verdict", "check_complete_partial",
+        "complete_fails_beyond_plain", "empty_struct_unsound",
     ]],
     "harness": "c19",
     "nontrivial": nontrivial,
     "finding_key": finding_key,
     "shrink": shrink,
     "search": search,
-    "level_text": "Proof about the model of get_type_layout / offsets_match / check_layout (op programs re-extracted from the "
-                  "source each run): for every element type of the grid, of any size and nesting depth, accepted => the two "
-                  "reference calculators give the same total size and the same byte offset for every field recursively; "
-                  "rejected => the reported sizes are the reference sizes; agreeing types are never rejected; no panic site "
-                  "fires while the sizes fit u32. The model is compared with the real compile() on generated programs and the "
-                  "property's own oracle (independent Rust calculators) is run on the real verdicts.",
-    "rule": "requests = (use kind, list of element types); each is turned into an RSSL program, compiled by the real "
-            "compile(...validate_layout_consistency(true)) and the verdict + sizes in the message are compared with the "
-            "model and judged by two independent reference layout calculators (accepted => same size and same offset of "
-            "every field recursively; rejected => reported sizes are the reference sizes). Exhaustive: every leaf type, "
-            "every flat struct of 1-2 members over 21 leaf types (3 members: sampled in quick, exhaustive in thorough), "
-            "depth-2 shapes over a reduced alphabet; random: structs to depth 3 with 1-6 members, arrays 1-4 (also "
-            "nested arrays), nested structs, enums, 8 use kinds, 1-3 types per program. non-trivial = at least two members",
+    "level_text": "Proof about the model of check_layout (collection loops + get_type_layout / offsets_match / final loop; op "
+                  "programs, matched object kinds and intrinsics re-extracted from the source each run): for every module, every "
+                  "structure used as the element type of a global (RW)StructuredBuffer or of an instantiated typed "
+                  "ByteAddressBuffer / BufferAddress load or store is collected, and accepted => the two reference calculators give "
+                  "the same total size and the same byte offset for every field recursively; rejected => the reported sizes and "
+                  "alignments are the reference ones; over the full type universe (bool, vectors 1-4, matrices of every shape and "
+                  "majorness, enums, multi-dimensional arrays, any nesting depth) types without a layout are never accepted; "
+                  "agreeing bool/matrix-free types are never rejected (completeness is partial: bool / matrix types are always "
+                  "'unknown size'); no panic site fires while sizes fit u32. Three holes are proved as negation witnesses and "
+                  "reproduced on the real compiler (known findings): arrays of structured buffers and buffers inside a global struct "
+                  "are not collected, empty structs get size 0 in Metal mode. The model is compared with the real compile() on "
+                  "generated whole programs and the property's own oracle (independent Rust calculators, themselves compared with "
+                  "the Lean reference on every run) judges the real verdicts and diagnostics.",
+    "rule": "two request kinds. C19.check = (use kind, list of element types) as before. C19.prog = (target vk|dx|msl, pipeline "
+            "mode or not, spelling seed, type table, list of use sites): turned into an RSSL program (17 kinds of global "
+            "declaration incl. arrays / typedefs / const / register / bindless / buffer in a struct / parameter / "
+            "ConstantBuffer / cbuffer / plain variables; 10 typed Load<T>/Store<T> forms x 7 wrappers: main, uncalled function, "
+            "instantiated and uninstantiated function template, struct method, buffer parameter, element of a buffer array), "
+            "compiled by the real compile(...validate_layout_consistency(true)); verdict, blamed location and the four numbers "
+            "of the message are compared with the model and judged by two independent reference layout calculators (accepted => "
+            "every structure at a site the property names has the same size and the same offset of every field recursively; "
+            "rejected => the reported sizes and alignments are the reference ones of the blamed structure). Exhaustive: every "
+            "site kind x target x mode with a differing structure; every leaf type of the widened universe in 3-5 shapes; every "
+            "flat struct of 1-2 members over 21 leaf types (3 members: sampled / exhaustive in thorough); random: structs to "
+            "depth 3 (chains to depth 7), 0-6 members, arrays 1-4 in up to 3 dimensions, programs with 1-3 types and 1-5 sites, "
+            "half of them with all structures agreeing but one. non-trivial = some type has at least two members",
     "trusted_base": [
         "Lean 4.33 kernel; axioms propext / Classical.choice / Quot.sound only (audited by #print axioms)",
-        "tools/gens/c19.py (LayoutTables: ScalarType::get_size, the arms of get_type_layout and of offsets_match as op "
-        "programs over a fixed statement vocabulary, check_layout's top-level adjustments, comparison and checked use sites) — re-run on /repo's "
-        "working tree every time; a statement outside the vocabulary is a broken obligation",
-        "Model/Layout.lean: interpreter of the op programs + the recursion skeleton of get_type_layout; tied to the code by "
-        "the correspondence run",
-        "Spec/Layout.lean and the Rust reference calculators in harness/src/c19.rs: our reading of HLSL structured-buffer "
-        "packing and of the Metal struct layout rules (MSL spec 2.2-2.4)",
+        "tools/gens/c19.py: LayoutTables (ScalarType::get_size, the arms of get_type_layout and of offsets_match as op programs "
+        "over a fixed statement vocabulary, check_layout's top-level adjustments, comparison, matched objects and intrinsics) and "
+        "LayoutSites (ObjectType variants, get_structured_type users, the T-templated object methods of intrinsic_data.rs, the "
+        "fixed text of the two collection loops, of get_type_location, of compile()'s validation statement and of the two "
+        "diagnostics) - re-run on /repo's working tree every time; any other text is a broken obligation",
+        "Model/Layout.lean + Model/LayoutCollect.lean: interpreter of the op programs, the recursion skeletons and the two "
+        "collection loops; Driver/C19.lean::moduleOf: how the type checker turns the generated programs into globals and "
+        "intrinsic instantiations (order, type ids) - all tied to the code by the correspondence run only",
+        "Spec/Layout.lean, Spec/LayoutFull.lean and the Rust reference calculators in harness/src/c19.rs: our reading of HLSL "
+        "structured-buffer packing and of the Metal layout rules (MSL spec 2.2-2.4; bool 4 vs 1 byte; matrix = columns of "
+        "vectors as emitted by the MSL exporter; empty struct 0 vs 1 byte); the Lean and Rust versions are compared on 1545 "
+        "types every run",
     ],
     "assumptions": [
         "u32 arithmetic is modelled with overflow checks as in the harness build (overflow-checks = true); a release build wraps instead of panicking",
-        "TypeLayer::Modifier is transparent and is not modelled; the list of element types is the one check_layout collects "
-        "(globals in declaration order, then typed loads/stores in instantiation order — confirmed by the correspondence run)",
-        "Metal has no double; the Metal reference treats double like any other scalar (size = alignment = 8)",
+        "TypeLayer::Modifier below the element type is transparent and is not modelled; a type id denotes one type "
+        "(hypothesis `Consistent` of check_layout_sound: the type registry interns types)",
+        "the property's 'structure used as the element type of a structured buffer' is read as: of a buffer that exists, i.e. "
+        "a global (possibly an array element or a struct member) - a function parameter of buffer type that nothing is "
+        "passed to is not judged; ConstantBuffer<T>, cbuffer members and TriangleStream<T> are not named by the property",
+        "static struct members are laid out like ordinary members because the compiler treats and emits them as such on both targets",
+        "Metal has no double; the Metal reference treats double like any other scalar (size = alignment = 8); programs "
+        "whose compilation fails after an accepting layout check are not judged (the property's premise is false); the "
+        "MetalBytecode target needs the Metal compiler and is not exercised",
     ],
 }
